@@ -12,9 +12,9 @@ func init() {
 			{Pkg: "ads", Harness: "concset", Weight: 1},
 		},
 		QuickS: 20, ThoroughS: 600,
-		Rule:   "each run draws 2-4 keys out of a fixed universe (5 keys for the map, 8 for the set; sha256 paths in two clusters sharing >=14 / 5-9 / 1-3 / 0 leading bits), an operation mix and a history of 3-12 operations (Set/Add incl. overwrite and empty value, Delete incl. absent keys, Get, Has, Size, Stream, Root, Commit, Commit+reopen, reopen without Commit) and, for every twin comparison, an insertion order and a detour (overwrite, delete-and-reinsert, foreign key inserted and removed, Commit half way); distinct = distinct hash of (configuration, event log); non-trivial = at least two recorded decisions. C09 has no concurrency clause: one client task, the schedule is not a dimension here",
+		Rule:   "each run draws 2-4 keys out of a fixed universe (5 keys for the map, 8 for the set; sha256 paths in two clusters sharing >=14 / 5-9 / 1-3 / 0 leading bits), an operation mix and a history of 3-12 operations (Set/Add incl. overwrite and empty value, Delete incl. absent keys, Get, Has, Size, Stream, Root, Commit, Commit+reopen, reopen without Commit) and, for every twin comparison, an insertion order and a detour (overwrite, delete-and-reinsert, foreign key inserted and removed, Commit half way); distinct = distinct hash of (configuration, event log); non-trivial = at least two recorded decisions. the sequential legs have one client task; the conc legs add 2-3 client tasks x 1-4 Set/Add/Delete/Get/Has/Size calls on 1-3 keys under seeded schedules (the types guard themselves with a mutex: every history concurrent callers can observe must be one of the sequential histories C09 speaks about)",
 		Real:   []string{"ads (authenticatedMap, authenticatedSet, mapStoreAdapter)", "kvstore (TypedStore, TypedValue, realms)", "kvstore/mapdb", "github.com/pokt-network/smt v0.9.2 (unmodified, from the module cache)"},
 		Stubs:  commonStubs,
-		Assume: []string{"the store that survives a reopen is an in-memory mapdb that loses nothing (no torn or lost writes: C09 does not speak about a failing store)", "bounded: <=4 keys per run out of 5 (map, 3 values incl. the empty one) or 8 (set), <=12 operations plus final audit", "root injectivity is decided inside the explored universe only (all 1024 map contents / 256 set contents as built by fresh instances, plus every root observed in a run)", "a reopen while changes made after the last Commit are pending is only required not to panic and ends the run"},
+		Assume: []string{"the store that survives a reopen is an in-memory mapdb that loses nothing (no torn or lost writes: C09 does not speak about a failing store)", "conc legs: calls that overlap may take effect in either order (linearizability, exact checker); the audit after quiescence is the sequential one", "bounded: <=4 keys per run out of 5 (map, 3 values incl. the empty one) or 8 (set), <=12 operations plus final audit", "root injectivity is decided inside the explored universe only (all 1024 map contents / 256 set contents as built by fresh instances, plus every root observed in a run)", "a reopen while changes made after the last Commit are pending is only required not to panic and ends the run"},
 	})
 }
